@@ -6,6 +6,8 @@
 #        closewrite-omitted one-direction-only reply-reader-buffered reply-reader-4k grace-10ms drain-twice
 #        drain-one-byte-short no-reflect-closewriter shared-copy-buffer connect-2xx-body-kept
 #        connect-2xx-length-kept-for-chunked
+#        the grace period on the clock (caught by the phase of grace.go): grace-timer-at-tunnel-start
+#        grace-timer-after-last-finish grace-period-halved grace-timer-not-cancelled grace-close-only-first-leg
 # BASE_PATCH=<file> (optional): a patch applied after the reset and before the mutation (a repair that
 # is not committed in /repo yet, e.g. the one of F29 while it is under review).
 set -e
@@ -136,6 +138,36 @@ PY
    # Transfer-Encoding: chunked keeps its body
    grep -q 'if res.StatusCode/100 == 2 {' $WT/dialvia/http.go
    sed -i 's|^\t\tif res.StatusCode/100 == 2 {$|\t\tif res.StatusCode/100 == 2 \&\& len(res.TransferEncoding) == 0 {|' $WT/dialvia/http.go ;;
+ grace-timer-at-tunnel-start|grace-timer-after-last-finish|grace-period-halved|grace-timer-not-cancelled|grace-close-only-first-leg)
+   M="$1" python3 - <<'PY'
+import os
+p=os.environ['WT']+'/internal/martian/copy.go'
+s=open(p).read()
+loop="""	for i := range cc {
+		<-donec
+		if i == 0 {
+			// Forcibly close all tunnels 1 minute after the first tunnel finished.
+			go gracefulCloseAfter(ctx, bicopyGracefulTimeout, cc...)
+		}
+	}
+"""
+assert loop in s
+m=os.environ['M']
+if m=='grace-timer-at-tunnel-start':      # the timer runs from the start of the tunnel
+    s=s.replace(loop,"\tgo gracefulCloseAfter(ctx, bicopyGracefulTimeout, cc...)\n\tfor range cc {\n\t\t<-donec\n\t}\n")
+elif m=='grace-timer-after-last-finish':  # only once both directions have finished: never effective
+    s=s.replace(loop,loop.replace('if i == 0 {','if i == len(cc)-1 {'))
+elif m=='grace-period-halved':
+    s=s.replace(loop,loop.replace('bicopyGracefulTimeout, cc...','bicopyGracefulTimeout/2, cc...'))
+elif m=='grace-timer-not-cancelled':      # fires although both directions finished in time
+    s=s.replace(loop,loop.replace('gracefulCloseAfter(ctx, ','gracefulCloseAfter(context.WithoutCancel(ctx), '))
+elif m=='grace-close-only-first-leg':     # the forced close leaves the other leg to its (quiet) peer
+    old="\tfor i := range cc {\n\t\tcc[i].close(ctx)\n\t}"
+    assert old in s
+    s=s.replace(old,"\tcc[0].close(ctx)")
+open(p,'w').write(s)
+PY
+ ;;
  *) echo "unknown mutation $1"; exit 2;;
 esac
 git -C $WT diff --stat | tail -1
